@@ -134,6 +134,19 @@ TARGETED = [
     "r3k2r/8/8/8/8/8/6B1/R3K2R w KQkq - 0 1",
     "r3k2r/1B6/8/8/8/8/8/R3K2R w KQkq - 0 1",
     "r3k2r/8/8/8/8/8/6b1/R3K2R b KQkq - 0 1",
+    # promotion captures on rook corners with castling rights still set; corner-to-corner captures
+    "r3k2r/1P4P1/8/8/8/8/1p4p1/R3K2R w KQkq - 0 1",
+    "r3k2r/1P4P1/8/8/8/8/1p4p1/R3K2R b KQkq - 0 1",
+    "rn2k1nr/1P4P1/8/8/8/8/1p4p1/RN2K1NR w KQkq - 0 1",
+    "rn2k1nr/1P4P1/8/8/8/8/1p4p1/RN2K1NR b KQkq - 0 1",
+    "rn2k2r/8/8/8/8/8/8/R3K2B w Qkq - 0 1",
+    "r3k1nr/8/8/8/8/8/8/B3K2R w Kkq - 0 1",
+    "b3k2r/8/8/8/8/8/8/RN2K2R b KQk - 0 1",
+    "r3k2b/8/8/8/8/8/8/R3K1NR b KQq - 0 1",
+    "rn2k2r/8/8/8/8/8/8/R3K2R w KQkq - 0 1",
+    # double push answered by a promotion next to a start-rank pawn
+    "8/pp4P1/8/2k5/8/8/8/4K3 b - - 0 1",
+    "4k3/8/8/8/2K5/8/PP4p1/8 w - - 0 1",
     # many promoted pieces
     "QQQQQQQk/8/8/8/8/8/8/K7 w - - 0 1".replace("QQQQQQQk", "QQQ1QQ1k"),
     "4k3/8/8/8/8/1QQQ4/1QQQ4/KQQQ4 w - - 0 1",
@@ -293,6 +306,18 @@ def playouts(rng, starts, games, plies):
                 mv, f2 = item.split("=", 1)
                 steps.append((mv, f2))
         out.append((fen, steps))
+    return out
+
+
+def all_sequences(fens, depth):
+    """every legal move sequence of the given length from each position: list of (fen, [moves])"""
+    res = run_batch(MDRV, [f"sseq\t{f}\t{depth}" for f in fens])
+    out = []
+    for f, r in zip(fens, res):
+        if r and r.startswith("ok ") and len(r) > 3:
+            for seq in r[3:].split(";"):
+                if seq:
+                    out.append((f, seq.split(" ")))
     return out
 
 
